@@ -56,8 +56,9 @@ Theorem C14_shutdown_cleanup_race_refuted :
 Proof. exact psd_cleanup_race_refuted. Qed.
 Print Assumptions C14_shutdown_cleanup_race_refuted.
 
-(* regenerated: DumpProgramState dumps on every call (nothing in front of DumpObjects can return or skip) *)
-Theorem C14_source_fact_shutdown : psd_src_skip = false.
+(* regenerated: DumpProgramState dumps on every call (nothing in front of DumpObjects can return or skip), and OnShutdown
+   calls it unconditionally *)
+Theorem C14_source_fact_shutdown : psd_src_skip = false /\ psd_src_shutdown_dumps = true.
 Proof. exact psd_src_fact. Qed.
 Print Assumptions C14_source_fact_shutdown.
 
